@@ -130,6 +130,28 @@ func runC03(c *fw.Ctx, idx int) fw.Result {
 			} else {
 				s = gen.RandSeq(r, W, p)
 			}
+			if W >= 8 && r.Chance(0.2) {
+				// masked ends: runs of 8-40 N (or '?', '-') from the first column and/or up to the last,
+				// as consensus pipelines produce them
+				b := []byte(s)
+				for _, end := range []int{0, 1} {
+					if r.Chance(0.7) {
+						n := r.Range(8, 40)
+						if n > W {
+							n = W
+						}
+						sym := "NNNn?-"[r.Intn(6)]
+						for k := 0; k < n; k++ {
+							if end == 0 {
+								b[k] = sym
+							} else {
+								b[W-1-k] = sym
+							}
+						}
+					}
+				}
+				s = string(b)
+			}
 			recs = append(recs, gen.FastaRec{ID: id, Desc: desc, Seq: s})
 		}
 	}
